@@ -231,7 +231,7 @@ def _counters(path):
 
 def _validate(ctx, tr, label, issues, stats):
     res = vlib.validate_sharded(TRACE_SPEC[0], TRACE_SPEC[1], tr, ctx.work,
-                                shards=min(vlib.NCPU, 16))
+                                shards=min(vlib.NCPU, 16), max_failures=6)
     ctx.machinery_errors += res["errors"]
     issues += issues_from_validation(ctx, res, label)
     stats["events"] += res["events"]
